@@ -243,7 +243,7 @@ def case_list(thorough, rng):
                                 pass
                             for zeroB in ((False, True) if (op == "dense" and bA == () and cls == "spd") else (False,)):
                                 n = 4 if (len(out) % 2 == 0) else 5
-                                must = (not zeroB) and (
+                                must = (not zeroB) and dt != "float32" and (      # (broyden1's absolute default f_tol 1e-6 is at float32 rounding level)
                                     method in ("exactsolve", "custom_exactsolve", "broyden1")
                                     or (method == "cg" and cls == "spd")
                                     or (method == "bicgstab" and cls == "spd"))
